@@ -139,7 +139,15 @@ def _alarm(signum, frame):
 
 def safe_pformat(obj, st, limit=1.5):
     """pformat with a watchdog: a print that raises (incl. RecursionError) or does not finish within `limit` seconds is
-    reported as text 'EXC:...' — never crashes or hangs the harness"""
+    reported as text 'EXC:...' — never crashes or hangs the harness.  These prints take milliseconds; so that a loaded machine
+    cannot turn a slow print into an alarm, a print that exceeds the limit is tried once more with twenty times the limit."""
+    r = _safe_pformat_once(obj, st, limit)
+    if r.startswith('EXC:does-not-terminate'):
+        r = _safe_pformat_once(obj, st, limit * 20)
+    return r
+
+
+def _safe_pformat_once(obj, st, limit):
     import signal
     old = signal.signal(signal.SIGALRM, _alarm)
     signal.setitimer(signal.ITIMER_REAL, limit)
